@@ -7,15 +7,19 @@
 // harness waits for a stable point (every other goroutine blocked, daemon
 // counters unchanged) and records what can be observed from outside.
 //
-//   C05 q=<cap> w=<workers> n=<cids> <act> ... => <obs> | ret=<..> <obs> | ...
+//	C05 q=<cap> w=<workers> n=<cids> <act> ... => <obs> | ret=<..> <obs> | ...
 //
 // acts: t:<pin> (pinset records pin, then Track)  u:<c> (pinset drops c, then Untrack)
-//       r:<c> Recover  R RecoverAll  e:<c> daemon applies the parked call for c
-//       k:<c> daemon applies (if not yet) and answers nil  x:<c> daemon answers an error
-//       (eP/eU, kP/kU, xP/xU address the oldest parked Pin / Unpin call of that cid)
-//       l:<c> daemon loses the pin
+//
+//	r:<c> Recover  R RecoverAll  e:<c> daemon applies the parked call for c
+//	k:<c> daemon applies (if not yet) and answers nil  x:<c> daemon answers an error
+//	(eP/eU, kP/kU, xP/xU address the oldest parked Pin / Unpin call of that cid)
+//	G a concurrent RecoverAll reads the pinset now; Rs is the rest of it (it works on that listing)
+//	l:<c> daemon loses the pin  F:1 / F:0 the daemon's reads (PinLsCid, PinLs) fail from now on / work again
+//
 // pin = c.k.m.t  k: h here(+1 other) e everywhere g cluster-dag here r remote z remote(no allocations)
-//                   m meta 0 api.PinCid ; m: r|d ; t: option variant 0..9
+//
+//	m meta 0 api.PinCid ; m: r|d ; t: option variant 0..9
 package main
 
 import (
@@ -151,6 +155,7 @@ type daemon struct {
 	arrivals   int
 	departures int
 	failed     map[int]bool
+	lsDown     bool // scripted fault: PinLsCid / PinLs answer an error
 }
 
 var errDaemon = errors.New("daemon failure (scripted)")
@@ -201,6 +206,9 @@ func (d *daemon) Unpin(ctx context.Context, in *api.Pin, out *struct{}) error {
 func (d *daemon) PinLsCid(ctx context.Context, in *api.Pin, out *api.IPFSPinStatus) error {
 	d.mu.Lock()
 	defer d.mu.Unlock()
+	if d.lsDown {
+		return errDaemon
+	}
 	*out = api.IPFSPinStatusUnpinned
 	e, ok := d.pins[common.CidIndex(in.Cid, maxCids)]
 	// like ipfshttp: pin/ls?arg=<cid>&type=<the pin's own mode>
@@ -216,6 +224,9 @@ func (d *daemon) PinLsCid(ctx context.Context, in *api.Pin, out *api.IPFSPinStat
 func (d *daemon) PinLs(ctx context.Context, in string, out *map[string]api.IPFSPinStatus) error {
 	d.mu.Lock()
 	defer d.mu.Unlock()
+	if d.lsDown {
+		return errDaemon
+	}
 	m := map[string]api.IPFSPinStatus{}
 	for c, e := range d.pins {
 		if e.mode == "r" && (in == "recursive" || in == "all" || in == "") {
@@ -293,6 +304,25 @@ type world struct {
 	settleFail      bool
 	settleWait      time.Duration
 	jitter          int // scheduler yields between a released answer and a racing instruction
+	// a concurrent RecoverAll that has read the pinset (st.List) and is descheduled: action G takes the
+	// listing, the next R is the rest of that RecoverAll (its getState().List() answers with it)
+	stale      []*api.Pin
+	staleArmed bool
+	inR        bool
+}
+
+// staleState is the shared pinset as one RecoverAll sees it: List() may have happened earlier.
+type staleState struct {
+	state.ReadOnly
+	w *world
+}
+
+func (s staleState) List(ctx context.Context) ([]*api.Pin, error) {
+	if s.w.inR && s.w.staleArmed {
+		s.w.staleArmed = false
+		return s.w.stale, nil
+	}
+	return s.ReadOnly.List(ctx)
 }
 
 func newWorld(cap, workers, n int) *world {
@@ -309,7 +339,7 @@ func newWorld(cap, workers, n int) *world {
 	}
 	client := rpc.NewClientWithServer(nil, "c05", server)
 	w.spt = stateless.New(cfg, common.PeerN(0), "self", func(ctx context.Context) (state.ReadOnly, error) {
-		return w.cons.St, nil
+		return staleState{ReadOnly: w.cons.St, w: w}, nil
 	})
 	w.spt.SetClient(client)
 	return w
@@ -512,7 +542,20 @@ func (w *world) act(a string) (string, bool) {
 		}
 		return w.act(ins)
 	}
-	if a == "R" {
+	if a == "G" {
+		l, err := w.cons.St.List(w.ctx)
+		if err != nil {
+			panic(err)
+		}
+		w.stale, w.staleArmed = l, true
+		w.settle()
+		return "ret=-", true
+	}
+	if a == "R" || a == "Rs" {
+		if a == "Rs" {
+			w.inR = true
+			defer func() { w.inR, w.staleArmed = false, false }()
+		}
 		ch := w.call(func() apiRet {
 			l, err := w.spt.RecoverAll(w.ctx)
 			return apiRet{err: err, infos: l}
@@ -530,6 +573,15 @@ func (w *world) act(a string) (string, bool) {
 		return "", false
 	}
 	switch f[0] {
+	case "F": // the daemon's reads (PinLsCid / PinLs) fail from now on (1) / work again (0)
+		if f[1] != "0" && f[1] != "1" {
+			return "", false
+		}
+		w.d.mu.Lock()
+		w.d.lsDown = f[1] == "1"
+		w.d.mu.Unlock()
+		w.settle()
+		return "ret=-", true
 	case "t":
 		c, k, m, t, ok := parsePinTok(f[1])
 		if !ok || c >= w.n || k == "0" {
@@ -677,6 +729,10 @@ func (w *world) obs() string {
 			fl[c] = "1"
 		}
 	}
+	lsd := "0"
+	if w.d.lsDown {
+		lsd = "1"
+	}
 	var calls []*pcall
 	for _, pc := range w.d.parked {
 		if pc.ctx.Err() == nil {
@@ -712,19 +768,23 @@ func (w *world) obs() string {
 	if w.lateBad {
 		g += "!"
 	}
-	return fmt.Sprintf("s=%s a=%s d=%s h=%s f=%s p=%s g=%s", strings.Join(sts, ","), strings.Join(all, ","),
-		strings.Join(dm, ","), strings.Join(sh, ","), strings.Join(fl, ","), pt, g)
+	return fmt.Sprintf("s=%s a=%s d=%s h=%s f=%s p=%s g=%s L=%s", strings.Join(sts, ","), strings.Join(all, ","),
+		strings.Join(dm, ","), strings.Join(sh, ","), strings.Join(fl, ","), pt, g, lsd)
 }
 
 // ---------------------------------------------------------------- generation
 
 type gen struct {
-	r        *common.Rng
-	w        *world
-	shared   map[int]string // cid -> pin token last tracked
-	draining int
-	profile  int // 0 mixed, 1 burst (queue pressure), 2 churn on one cid, 3 faulty daemon, 4 recover rounds, 5 noise
-	hot      int // the cid the churn profile insists on
+	r            *common.Rng
+	w            *world
+	shared       map[int]string // cid -> pin token last tracked
+	draining     int
+	profile      int // 0 mixed, 1 burst (queue pressure), 2 churn on one cid, 3 faulty daemon, 4 recover rounds, 5 noise
+	hot          int // the cid the churn profile insists on
+	lsFaults     int // percent chance per step that the daemon's reads start failing
+	lsDown       bool
+	overlap      int // percent chance per step that a RecoverAll overlapping the following actions starts
+	stalePending bool
 }
 
 func (g *gen) parkedCids() []int {
@@ -832,6 +892,33 @@ func (g *gen) next() string {
 	n := g.w.n
 	parked := g.parkedCids()
 	g.w.jitter = r.Intn(4)
+	// a RecoverAll that overlaps other instructions: it reads the pinset (G), instructions and daemon answers follow,
+	// then the rest of it runs (Rs)
+	if g.stalePending {
+		if r.Intn(4) == 0 {
+			g.stalePending = false
+			return "Rs"
+		}
+	} else if g.overlap > 0 && r.Intn(100) < g.overlap {
+		g.stalePending = true
+		return "G"
+	}
+	// daemon read failures (PinLsCid / PinLs): short outages that contain recover rounds and instructions
+	if g.lsDown {
+		switch x := r.Intn(10); {
+		case x < 3:
+			g.lsDown = false
+			return "F:0"
+		case x < 6:
+			if r.Chance(2, 3) {
+				return "R"
+			}
+			return fmt.Sprintf("r:%d", r.Intn(n))
+		}
+	} else if g.lsFaults > 0 && r.Intn(100) < g.lsFaults {
+		g.lsDown = true
+		return "F:1"
+	}
 	if g.draining > 0 {
 		if len(parked) == 0 {
 			g.draining = 0
@@ -960,6 +1047,11 @@ func runSchedule(cap, workers, n int, acts []string, r *common.Rng, length int, 
 	if r != nil {
 		g.profile = []int{0, 0, 0, 1, 1, 2, 2, 3, 4, 4, 5}[r.Intn(11)]
 		g.hot = r.Intn(n)
+		g.lsFaults = []int{0, 0, 2, 4, 10}[r.Intn(5)]
+		g.overlap = []int{0, 0, 0, 0, 3, 6}[r.Intn(6)]
+		if g.profile == 3 {
+			g.lsFaults += 6
+		}
 	}
 	total := len(acts)
 	if acts == nil {
